@@ -280,9 +280,12 @@ Proof.
   - exfalso. apply (Ns i t (count_execs s i t)). exact R.
 Qed.
 
-Lemma mx_mut_list cl (l : list nat) f :
-  (forall x, (liveb (f x) = true -> liveb x = true) /\ s_mutex (f x) = s_mutex x) -> Forall (op_mx cl) (concat (map (fun j => c_mutate j f) l)).
-Proof. intros Hf. induction l; simpl; constructor; [exact Hf|assumption]. Qed.
+Lemma Forall_concat'' {A} (P : A -> Prop) ls : Forall (Forall P) ls -> Forall P (concat ls).
+Proof. induction 1 as [|l ls Hl _ IH]; simpl; [constructor|]. apply Forall_app. split; assumption. Qed.
+
+Lemma mx_muts cl (l : list nat) f :
+  (forall x, (liveb (f x) = true -> liveb x = true) /\ s_mutex (f x) = s_mutex x) -> Forall (Forall (op_mx cl)) (map (fun j => c_mutate j f) l).
+Proof. intros Hf. induction l; simpl; constructor; [constructor; [exact Hf|constructor]|assumption]. Qed.
 
 Lemma mxh_jump s id i tg c : MXH s (handle_jump s id i tg c).
 Proof.
@@ -291,16 +294,21 @@ Proof.
   destruct (get_stage s tg) as [tgt|]; [|mx_list I].
   destruct (jump_exhausted _ _); [mx_list I|].
   cbn [h_commits ok]. constructor; [|constructor].
-  unfold txn. rewrite !concat_app. repeat (apply Forall_app; split).
-  - apply mx_mut_list. intros x. split; [intros Q; discriminate|reflexivity].
-  - apply mx_mut_list. intros x. split; [intros Q; discriminate|reflexivity].
+  unfold txn. apply Forall_concat''.
+  assert (forall x, (liveb (reset_for_retry x) = true -> liveb x = true) /\ s_mutex (reset_for_retry x) = s_mutex x) as Fr
+    by (intros x; split; [intros Q; discriminate|reflexivity]).
+  repeat (apply Forall_app; split).
+  - match goal with |- Forall _ (flat_map _ ?l) => generalize l end. intros l0.
+    induction l0 as [|j l0 IH]; simpl; [constructor|].
+    constructor; [constructor; [exact Fr|constructor]|]. apply Forall_app. split; [apply mx_muts; exact Fr|exact IH].
+  - apply mx_muts. intros x. split; [intros Q; discriminate|reflexivity].
   - match goal with |- context [if ?a then [] else _] => destruct a end; [constructor|].
-    match goal with |- context [if ?a then _ else _] => destruct a end; simpl; (constructor; [|constructor]); cbn [op_mx]; intros x;
-      (split; [intros Q; discriminate|reflexivity]).
-  - simpl. constructor; [|repeat constructor]. cbn [op_mx]. intros x. split; [intros Q; discriminate|reflexivity].
-  - repeat constructor.
-  - repeat constructor.
+    match goal with |- context [if ?a then _ else _] => destruct a end.
+    + constructor; [|apply mx_muts; exact Fr]. constructor; [|constructor]. cbn [op_mx]. intros x. split; [intros Q; discriminate|reflexivity].
+    + constructor; [|constructor]. constructor; [|constructor]. cbn [op_mx]. intros x. split; [intros Q; discriminate|reflexivity].
   - constructor.
+    + constructor; [|constructor]. cbn [op_mx]. intros x. split; [intros Q; discriminate|reflexivity].
+    + apply Forall_app. split; [apply mx_muts; exact Fr|]. repeat constructor.
 Qed.
 
 (* ---- the claim table ---- *)
